@@ -147,38 +147,7 @@ func (ps *ProcessSet) run(ctx context.Context) {
 		case ch := <-ps.mch:
 			switch msg := ch.(type) {
 			case throwMessage:
-				sourceRef, ok := ps.messageFlows[msg.Id]
-				if ok {
-					startFlowNode, waitingProcess, found := ps.resolveWaitingProcessAndEvent(string(sourceRef.TargetRefField))
-					if found {
-						// flow nodes
-						subTracer := tracing.NewTracer(ctx)
-						tracing.NewRelay(ctx, subTracer, ps.tracer, func(trace tracing.ITrace) []tracing.ITrace {
-							return []tracing.ITrace{trace}
-						})
-
-						process, err := NewProcess(waitingProcess, ps.definitions, append(ps.sourceOptions, WithTracer(subTracer))...)
-						if err != nil {
-							ps.tracer.Send(ErrorTrace{Error: err})
-							continue
-						}
-
-						// subscribe the watcher before starting, see StartAll
-						traces := process.Tracer().Subscribe()
-						ps.wg.Add(1)
-						go ps.tracerProcess(ctx, process, traces, &ps.wg)
-
-						err = process.StartWith(ctx, startFlowNode)
-						if err != nil {
-							ps.tracer.Send(ErrorTrace{Error: err})
-							continue
-						}
-					}
-					cancel, found := ps.triggerCatch(string(sourceRef.TargetRefField))
-					if found {
-						cancel()
-					}
-				}
+				ps.handleThrow(ctx, msg)
 			}
 		case <-ps.done:
 			ps.tracer.Send(CeaseProcessSetTrace{Definitions: ps.definitions})
@@ -186,6 +155,49 @@ func (ps *ProcessSet) run(ctx context.Context) {
 		case <-ctx.Done():
 			return
 		}
+	}
+}
+
+// handleThrow instantiates the waiting process / wakes the catch event that a
+// throw event's message flow points to. The watcher that reported the throw
+// holds a count on the wait group until this is done, so that the set cannot
+// be reported complete in between (its own process may finish right after the
+// throw, before the target process has been added to the wait group).
+func (ps *ProcessSet) handleThrow(ctx context.Context, msg throwMessage) {
+	defer ps.wg.Done()
+
+	sourceRef, ok := ps.messageFlows[msg.Id]
+	if !ok {
+		return
+	}
+	startFlowNode, waitingProcess, found := ps.resolveWaitingProcessAndEvent(string(sourceRef.TargetRefField))
+	if found {
+		// flow nodes
+		subTracer := tracing.NewTracer(ctx)
+		tracing.NewRelay(ctx, subTracer, ps.tracer, func(trace tracing.ITrace) []tracing.ITrace {
+			return []tracing.ITrace{trace}
+		})
+
+		process, err := NewProcess(waitingProcess, ps.definitions, append(ps.sourceOptions, WithTracer(subTracer))...)
+		if err != nil {
+			ps.tracer.Send(ErrorTrace{Error: err})
+			return
+		}
+
+		// subscribe the watcher before starting, see StartAll
+		traces := process.Tracer().Subscribe()
+		ps.wg.Add(1)
+		go ps.tracerProcess(ctx, process, traces, &ps.wg)
+
+		err = process.StartWith(ctx, startFlowNode)
+		if err != nil {
+			ps.tracer.Send(ErrorTrace{Error: err})
+			return
+		}
+	}
+	cancel, found := ps.triggerCatch(string(sourceRef.TargetRefField))
+	if found {
+		cancel()
 	}
 }
 
@@ -210,6 +222,8 @@ LOOP:
 			case *schema.ThrowEvent:
 				eventId, ok := evt.Id()
 				if ok {
+					// released by handleThrow
+					wg.Add(1)
 					ps.mch <- throwMessage{Id: *eventId}
 				}
 			}
